@@ -139,7 +139,9 @@ def get_next_imf(X, env_step_size=1, max_iters=1000, energy_thresh=None,
 
         # If upper or lower are None we should stop sifting altogether
         if upper is None or lower is None:
-            continue_flag = False
+            # Only flag the end of the sift if the input itself has no
+            # extrema, otherwise a residual still remains to be extracted
+            continue_flag = niters > 1
             continue_imf = False
             logger.debug('Finishing sift: IMF has no extrema')
             continue
